@@ -382,7 +382,28 @@ class Mon(object):
         except Exception:
             REC.counts['history-raised:neighbour'] += 1
 
+    def _interloper(self, method, args):
+        """Between two calls on this object another, brand-new object of the same class with another formula is
+        parsed and driven with the same arguments (`for trace in traces: for spec in specs: spec.evaluate(trace)`).
+        Never raises."""
+        sd = self.sd
+        if not sd.get('vars') or self._struct:
+            return
+        v = sd['vars'][0]
+        try:
+            s2 = build_spec(self.kind, dict(sd, text='((%s >= 2) or (once (%s <= 3)))' % (v, v), subspecs=[]))
+            s2.parse()
+            getattr(s2, method)(*copy.deepcopy([list(a) if isinstance(a, tuple) else a for a in args]))
+            REC.counts['history:interloper-' + method] += 1
+            LAST_HISTORY.append('object #%d: another new object of the same class was driven between two of its calls' % self.oid)
+        except Exception:
+            REC.counts['history-raised:interloper'] += 1
+
     def _do(self, method, *args):
+        if method in ('evaluate', 'update'):
+            self._ncalls = getattr(self, '_ncalls', 0) + 1
+            if self._ncalls == 2 and HISTORY is not None and HISTORY.random() < 0.2:
+                self._interloper(method, args)
         if method in ('evaluate', 'update') and self._parsed:
             if self._struct is None:
                 self._structify(method, args)
